@@ -77,8 +77,7 @@ theorem certRequest_spec {y : Pair} (hinv : PairInv y) {r : Rcn} {rc : Rc} {ki :
     (hg : get y.child.ca.classes r = some rc)
     (hk : (∃ b, rc.keys = .pending ⟨ki, b⟩) ∨ (∃ c, rc.keys = .active c ∧ c.id = ki)) (na : Int) :
     ReqStep y (y.certRequest r rc.parentRcn ki na) r ∧
-    (y.parent.ca.answer y.ch rc.parentRcn = none →
-      get (y.certRequest r rc.parentRcn ki na).child.ca.classes r = none) ∧
+    (y.parent.ca.answer y.ch rc.parentRcn = none → y.certRequest r rc.parentRcn ki na = y) ∧
     (∀ R, y.parent.ca.answer y.ch rc.parentRcn = some R →
       ∃ rc', get (y.certRequest r rc.parentRcn ki na).child.ca.classes r = some rc' ∧
         rc'.parent = rc.parent ∧ rc'.parentRcn = rc.parentRcn ∧
@@ -88,19 +87,17 @@ theorem certRequest_spec {y : Pair} (hinv : PairInv y) {r : Rcn} {rc : Rc} {ki :
   cases ha : y.parent.ca.answer y.ch rc.parentRcn with
   | none =>
     obtain ⟨e, hex⟩ := certify_refused (s := y.parent) ki na ha
-    have hy : y.certRequest r rc.parentRcn ki na = { y with child := y.child.next (.dropClass r) } := by
+    have hy : y.certRequest r rc.parentRcn ki na = y := by
       unfold Pair.certRequest; rw [hex]
     rw [hy]
-    obtain ⟨d1, d2, d3, _, d5, d6⟩ := drop_spec hinv.rc hinv.nolim hg
-    refine ⟨⟨rfl, rfl, ⟨hinv.rp, d1, d3.trans hinv.repo, d2⟩, ParentSame.refl _ _, d5, BookRel.refl _ _⟩,
-      fun _ => d6, fun R hR => (nomatch hR)⟩
+    exact ⟨ReqStep.refl hinv r, fun _ => rfl, fun R hR => (nomatch hR)⟩
   | some R =>
     obtain ⟨evs, p', hex, hr', hsame, hiss, hbook, _⟩ := certify_stored hinv.rp ki na ha
+    obtain ⟨c0, c1, c2, c3, _, c5, rc', c6, c7, c8, c9⟩ := recv_spec hinv.rc hinv.nolim hg hk (answerCert R na) na
     have hy : y.certRequest r rc.parentRcn ki na =
         { y with parent := p', child := y.child.next (.updateRcvdCert r ki (answerCert R na) na []) } := by
-      unfold Pair.certRequest; rw [hex]; simp only [hiss]; rfl
+      unfold Pair.certRequest; rw [hex]; simp only [hiss]; rw [← c0]; rfl
     rw [hy]
-    obtain ⟨c1, c2, c3, _, c5, rc', c6, c7, c8, c9⟩ := recv_spec hinv.rc hinv.nolim hg hk (answerCert R na) na
     refine ⟨⟨rfl, rfl, ⟨hr', c1, c3.trans hinv.repo, c2⟩, hsame, c5, hbook⟩, fun h => (nomatch h), ?_⟩
     intro R' hR'
     cases hR'
@@ -152,9 +149,46 @@ def KeyState.plain : KeyState → Prop
 theorem plain_of_not_rolling {ks : KeyState} (h : ks.rolling = false) : ks.plain := by
   cases ks <;> simp_all [KeyState.rolling, KeyState.plain]
 
+/-- Every class of the child under the parent that has a certificate request open is one the
+parent answers.  A krill parent refuses a request it cannot answer with an error and the child
+keeps it (`Pair.certRequest`): without this the request branch never ends
+(`C02.sync_stuck_with_request_for_lost_class`). -/
+def Answerable (x : Pair) : Prop :=
+  ∀ r rc, get x.child.ca.classes r = some rc → rc.parent = x.ph → rc.keys.certRequests ≠ [] →
+    ∃ R, x.parent.ca.answer x.ch rc.parentRcn = some R
+
+/-- `Answerable` as a decidable test. -/
+def Pair.pendingAnswerable (x : Pair) : Bool :=
+  x.child.ca.classes.all fun q =>
+    decide (q.2.parent ≠ x.ph) || q.2.keys.certRequests.isEmpty || (x.parent.ca.answer x.ch q.2.parentRcn).isSome
+
+theorem answerable_of_bool {x : Pair} (h : x.pendingAnswerable = true) : Answerable x := by
+  intro r rc hg hp hreq
+  unfold Pair.pendingAnswerable at h
+  rw [List.all_eq_true] at h
+  have := h (r, rc) (mem_of_get hg)
+  simp only [hp, ne_eq, not_true_eq_false, decide_false, Bool.false_or, Bool.or_eq_true,
+    List.isEmpty_iff] at this
+  rcases this with h1 | h1
+  · exact absurd h1 hreq
+  · cases ha : x.parent.ca.answer x.ch rc.parentRcn with
+    | none => rw [ha] at h1; cases h1
+    | some R => exact ⟨R, rfl⟩
+
+theorem certRequests_ne_nil_of_plain_pending {ks : KeyState} (hpl : ks.plain) (h : ks.hasPending = true) :
+    ks.certRequests ≠ [] := by
+  cases ks with
+  | pending p => obtain ⟨pid, preq⟩ := p; cases preq <;> simp_all [KeyState.hasPending, KeyState.certRequests, KeyState.revokeRequest]
+  | active c => obtain ⟨cid, cc, creq⟩ := c; cases creq <;> simp_all [KeyState.hasPending, KeyState.certRequests, KeyState.revokeRequest]
+  | rollPending _ _ => cases hpl
+  | rollNew _ _ => cases hpl
+  | rollOld _ _ => cases hpl
+
 /-- `Pair.classRequests` on a class without a key roll. -/
 theorem classRequests_spec {y : Pair} (hinv : PairInv y) (r : Rcn) (na : Int)
-    (hplain : ∀ rc, get y.child.ca.classes r = some rc → rc.parent = y.ph → rc.keys.plain) :
+    (hplain : ∀ rc, get y.child.ca.classes r = some rc → rc.parent = y.ph → rc.keys.plain)
+    (hansw : ∀ rc, get y.child.ca.classes r = some rc → rc.parent = y.ph → rc.keys.certRequests ≠ [] →
+      ∃ R, y.parent.ca.answer y.ch rc.parentRcn = some R) :
     ReqStep y (y.classRequests r na) r ∧ Answered y (y.classRequests r na) na r := by
   unfold Pair.classRequests
   cases hg : get y.child.ca.classes r with
@@ -194,7 +228,9 @@ theorem classRequests_spec {y : Pair} (hinv : PairInv y) (r : Rcn) (na : Int)
         obtain ⟨hst, hno, hyes⟩ := certRequest_spec hinv hg h4 na
         refine ⟨hst, fun h => (by rw [hg] at h; cases h), ?_, ?_, ?_⟩
         · intro rc0 h0 hnot; rw [hg] at h0; cases h0; exact absurd ⟨hp, h3⟩ hnot
-        · intro rc0 h0 _ _ hans; rw [hg] at h0; cases h0; exact hno hans
+        · intro rc0 h0 _ _ hans; rw [hg] at h0; cases h0
+          obtain ⟨R, hR⟩ := hansw rc hg hp (by rw [h2]; simp)
+          rw [hans] at hR; cases hR
         · intro rc0 R h0 _ _ hans
           rw [hg] at h0; cases h0
           obtain ⟨rc', a1, a2, a3, a4, a5⟩ := hyes R hans
@@ -219,7 +255,7 @@ structure ReqRun (x z : Pair) (na : Int) : Prop where
 /-- No class under the parent is in a key roll. -/
 def NoRoll (s : Ca) (p : Handle) : Prop := ∀ r rc, get s.classes r = some rc → rc.parent = p → rc.keys.plain
 
-theorem requests_fold {x : Pair} (na : Int) (hnr : NoRoll x.child.ca x.ph) :
+theorem requests_fold {x : Pair} (na : Int) (hnr : NoRoll x.child.ca x.ph) (hansw : Answerable x) :
     ∀ (rs : List Rcn) (y : Pair), rs.Nodup → y.ch = x.ch → y.ph = x.ph → PairInv y →
       ParentSame x.parent.ca y.parent.ca x.ch → BookRel x.parent.ca y.parent.ca x.ch →
       (∀ r ∈ rs, get y.child.ca.classes r = get x.child.ca.classes r) →
@@ -236,7 +272,11 @@ theorem requests_fold {x : Pair} (na : Int) (hnr : NoRoll x.child.ca x.ph) :
     obtain ⟨hst, hans⟩ := classRequests_spec hinv r na (by
       intro rc hg hp
       rw [hgr] at hg
-      exact hnr r rc hg (hp.trans hph))
+      exact hnr r rc hg (hp.trans hph)) (by
+      intro rc hg hp hreq
+      rw [hgr] at hg
+      obtain ⟨R, hR⟩ := hansw r rc hg (hp.trans hph) hreq
+      exact ⟨R, by rw [hch]; exact (hsame.answer _).trans hR⟩)
     have hsame1 : ParentSame x.parent.ca (y.classRequests r na).parent.ca x.ch := by
       have := hst.same; rw [hch] at this; exact hsame.trans this
     refine ih (y.classRequests r na) hnd'.2 (hst.ch.trans hch) (hst.ph.trans hph) hst.inv hsame1 ?_ ?_ ?_
@@ -267,12 +307,13 @@ theorem requests_fold {x : Pair} (na : Int) (hnr : NoRoll x.child.ca x.ph) :
         exact (hdone r' hnot).step hch hst hrr
 
 /-- The request branch of `Pair.sync`. -/
-theorem syncR_spec {x : Pair} (hinv : PairInv x) (hnr : NoRoll x.child.ca x.ph) (now na : Int)
+theorem syncR_spec {x : Pair} (hinv : PairInv x) (hnr : NoRoll x.child.ca x.ph) (hansw : Answerable x)
+    (now na : Int)
     (fresh : List KeyId) (hpend : x.child.ca.hasPendingRequests x.ph = true) :
     ReqRun x (x.sync now na fresh) na := by
   unfold Pair.sync
   simp only [hpend, if_true]
-  refine requests_fold na hnr _ x (reachable_inv hinv.rc).core.nodup rfl rfl hinv (ParentSame.refl _ _)
+  refine requests_fold na hnr hansw _ x (reachable_inv hinv.rc).core.nodup rfl rfl hinv (ParentSame.refl _ _)
     (BookRel.refl _ _) (fun _ _ => rfl) ?_
   intro r hr
   have hnone : get x.child.ca.classes r = none := by
@@ -840,6 +881,12 @@ theorem coupled_of_bool {x : Pair} (hp : Reachable x.parent) (hc : Reachable x.c
 
 /-! ## Convergence -/
 
+/-- After the entitlement branch every class under the parent is listed, hence answerable. -/
+theorem PostE.answerable {x : Pair} {now na : Int} (h : PostE x now na) : Answerable x := by
+  intro r rc hg hp _
+  obtain ⟨⟨R, hoff⟩, _⟩ := h.cls r rc hg hp
+  exact ⟨R, offers_answer h.coupled.names hoff⟩
+
 /-- Two syncs from a coupled pair with nothing to send: entitlements, then requests. -/
 theorem converges_from_quiet {x : Pair} (hc : Coupled x) (now na : Int) (f1 f2 : List KeyId)
     (hpend : x.child.ca.hasPendingRequests x.ph = false)
@@ -851,7 +898,7 @@ theorem converges_from_quiet {x : Pair} (hc : Coupled x) (now na : Int) (f1 f2 :
     have hconv := hpost.conv_of_quiet hp2
     rw [hconv.sync_eq f2]; exact hconv
   | true =>
-    exact hpost.conv_of_requests (syncR_spec hpost.coupled.inv hpost.coupled.noroll now na f2 hp2)
+    exact hpost.conv_of_requests (syncR_spec hpost.coupled.inv hpost.coupled.noroll hpost.answerable now na f2 hp2)
 
 theorem ParentSame.classes_length {p p' : Ca} {ch : Handle} (h : ParentSame p p' ch)
     (hnd : (AMap.keys p.classes).Nodup) (hnd' : (AMap.keys p'.classes).Nodup) :
@@ -873,7 +920,7 @@ theorem newClasses_le (x : Pair) (na : Int) : x.newClasses na ≤ x.parent.ca.cl
 /-- Three syncs from any coupled pair: (requests,) entitlements, requests.  New keys are needed
 by the sync that fetches the entitlements: the first one when there is nothing to send, else the
 second. -/
-theorem converges_any {x : Pair} (hc : Coupled x) (now na : Int) (f1 f2 f3 : List KeyId)
+theorem converges_any {x : Pair} (hc : Coupled x) (hansw : Answerable x) (now na : Int) (f1 f2 f3 : List KeyId)
     (hf : if x.child.ca.hasPendingRequests x.ph then x.parent.ca.classes.length ≤ f2.length
       else x.newClasses na ≤ f1.length) :
     Conv (((x.sync now na f1).sync now na f2).sync now na f3) now na := by
@@ -884,7 +931,7 @@ theorem converges_any {x : Pair} (hc : Coupled x) (now na : Int) (f1 f2 f3 : Lis
     rw [hconv.sync_eq f3]; exact hconv
   | true =>
     simp only [hpend, if_true] at hf
-    have hr := syncR_spec hc.inv hc.noroll now na f1 hpend
+    have hr := syncR_spec hc.inv hc.noroll hansw now na f1 hpend
     have hc1 := hr.coupled hc
     have hlen : (x.sync now na f1).parent.ca.classes.length = x.parent.ca.classes.length :=
       hr.same.classes_length (reachable_inv hc.inv.rp).core.nodup (reachable_inv hr.inv.rp).core.nodup
@@ -893,11 +940,12 @@ theorem converges_any {x : Pair} (hc : Coupled x) (now na : Int) (f1 f2 f3 : Lis
 
 /-- Every sync keeps the coupling. -/
 theorem sync_coupled {x : Pair} (hc : Coupled x) (now na : Int) (f : List KeyId)
-    (h : x.child.ca.hasPendingRequests x.ph = false → x.newClasses na ≤ f.length) :
+    (h : x.child.ca.hasPendingRequests x.ph = false → x.newClasses na ≤ f.length)
+    (ha : x.child.ca.hasPendingRequests x.ph = true → Answerable x) :
     Coupled (x.sync now na f) := by
   cases hpend : x.child.ca.hasPendingRequests x.ph with
   | false => exact (syncE_spec hc now na f hpend (h hpend)).1.coupled
-  | true => exact (syncR_spec hc.inv hc.noroll now na f hpend).coupled hc
+  | true => exact (syncR_spec hc.inv hc.noroll (ha hpend) now na f hpend).coupled hc
 
 /-- A fixed point of `Pair.sync` stays where it is. -/
 theorem syncs_of_fixed {y : Pair} {now na : Int} (h : ∀ f, y.sync now na f = y) :
